@@ -12,6 +12,39 @@ logging.getLogger('ndn.app').setLevel(logging.CRITICAL)
 logging.getLogger('ndn.appv2').setLevel(logging.CRITICAL)
 
 
+class _FormatOnly(logging.Handler):
+    """formats every record (so that the arguments of the log call are really evaluated) and drops it"""
+    def emit(self, record):
+        record.getMessage()
+
+    def handleError(self, record):     # an exception while formatting must not be swallowed by logging
+        raise
+
+
+_FORMAT_ONLY = _FormatOnly()
+_run_counter = [0]
+
+
+def log_mode(app):
+    """Every second application runs with its logger at DEBUG (the usual development setting): the debug branches of the
+    receive path and the arguments of every log call are then executed; nothing is printed.  Returns a function that
+    restores the quiet setting."""
+    _run_counter[0] += 1
+    lg = app.logger
+    if _run_counter[0] % 2 == 0:
+        return lambda: None
+    lg.setLevel(logging.DEBUG)
+    lg.addHandler(_FORMAT_ONLY)
+    old = lg.propagate
+    lg.propagate = False
+
+    def restore():
+        lg.setLevel(logging.CRITICAL)
+        lg.removeHandler(_FORMAT_ONLY)
+        lg.propagate = old
+    return restore
+
+
 class _DummyKeychain:
     def get_signer(self, kwargs):
         from ndn.security.signer import DigestSha256Signer
@@ -30,7 +63,7 @@ class _NoReg:
         return True
 
 
-def new_app(front, registerer=None):
+def new_app(front, registerer=None, debug_log=False):
     """Return (app, face) for front in {'v2','legacy'} with the face marked as connected."""
     face = make_face()
     if front == 'v2':
@@ -42,6 +75,7 @@ def new_app(front, registerer=None):
         app = app1.NDNApp(face=face, keychain=_DummyKeychain())
         app._prefix_register_semaphore = aio.Semaphore(1)
     face.running = True
+    app._verif_restore_log = log_mode(app) if debug_log else (lambda: None)
     return app, face
 
 
